@@ -7,6 +7,12 @@
 //!                             `inject_meta_context` on a one-chunk stream; observable = what ends
 //!                             up between `<head>` and `</head>`
 //!     <title> = `-` | `t` hex ;  <meta> = `m` kind `,` hex `,` hex, kind ∈ n p c h i
+//!   doc <item>*               every leptos_meta component under a `ServerMetaContext`, then
+//!                             `inject_meta_context` on the shell `<!DOCTYPE html><html><head><!--HEAD--></head>
+//!                             <body></body></html>`; observable = the whole first chunk. Items: `T`hex Title
+//!                             text, `F`hex,hex Title formatter (prefix,suffix), `m`… Meta, `l`k=hex,… Link,
+//!                             `y`k=hex,…|child Style, `j`k=hex,…|child Script (child `-` | `c`hex),
+//!                             `k`hex,(`-`|`i`hex) Stylesheet, `H`attrs`>` <Html/>, `B`attrs`>` <Body/>
 //! Output: `<hex of the emitted HTML> ## ok | fail <why>`; the verdict re-parses the *real* output
 //! with the independent tokenizer/tree builder (hx_c06::html) and compares with the expected tree
 //! derived from the op (hx_c06::enc::expected).
@@ -23,6 +29,7 @@ use leptos::tachys::html::attribute as at;
 use leptos::tachys::html::class::class as class_attr;
 use leptos::tachys::html::element as el;
 use leptos::tachys::html::element::{custom, inner_html, ElementChild};
+use leptos::tachys::html::islands::{Island, IslandChildren};
 use leptos::tachys::html::style::style as style_attr;
 use leptos::tachys::view::add_attr::AddAnyAttr;
 use leptos::tachys::view::any_view::{AnyView, IntoAny};
@@ -430,6 +437,20 @@ fn build(n: &Node) -> Option<AnyView> {
         Node::Prim { ty, s } => prim_child(ty, s),
         Node::Unit => Some(().into_any()),
         Node::Cont { kind, ity, kids } => build_cont(*kind, *ity, kids),
+        Node::Island { comp, props, kids } => {
+            if kids.len() > MAX_KIDS {
+                return None;
+            }
+            let views: Vec<AnyView> = kids.iter().map(build).collect::<Option<_>>()?;
+            Some(Island::new(leak(comp), StaticVec::from(views)).with_props(props.clone()).into_any())
+        }
+        Node::IslandChildren { kids } => {
+            if kids.len() > MAX_KIDS {
+                return None;
+            }
+            let views: Vec<AnyView> = kids.iter().map(build).collect::<Option<_>>()?;
+            Some(IslandChildren::new(StaticVec::from(views)).into_any())
+        }
         Node::Elem { tag, attrs, kids } => {
             if kids.len() > MAX_KIDS {
                 return None;
@@ -544,6 +565,270 @@ fn expected_head(title: &Option<String>, metas: &[MetaOp]) -> Vec<Tree> {
     out
 }
 
+// ------------------------------------------------------------------ `doc`: every leptos_meta component
+
+const LINK_KEYS: &[&str] = &[
+    "id", "as", "crossorigin", "fetchpriority", "href", "hreflang", "imagesizes", "imagesrcset", "integrity",
+    "media", "referrerpolicy", "rel", "sizes", "title", "type", "blocking",
+];
+const SCRIPT_KEYS: &[&str] = &[
+    "id", "async", "crossorigin", "defer", "fetchpriority", "integrity", "nomodule", "nonce", "referrerpolicy",
+    "src", "type", "blocking",
+];
+const STYLE_KEYS: &[&str] = &["id", "media", "nonce", "title", "blocking"];
+
+#[derive(Clone, Debug)]
+enum DocItem {
+    Text(String),
+    Fmt(String, String),
+    Meta(MetaOp),
+    Link(Vec<(String, String)>),
+    Style(Vec<(String, String)>, Option<String>),
+    Script(Vec<(String, String)>, Option<String>),
+    Stylesheet(String, Option<String>),
+    Html(Vec<Attr>),
+    Body(Vec<Attr>),
+}
+
+fn parse_kvs(keys: &[&str], w: &str) -> Option<Vec<(String, String)>> {
+    let mut out = vec![];
+    if w.is_empty() {
+        return Some(out);
+    }
+    let mut from = 0;
+    for it in w.split(',') {
+        let (k, h) = it.split_once('=')?;
+        let i = keys.iter().position(|x| *x == k)?;
+        if i < from {
+            return None;
+        }
+        from = i + 1;
+        out.push((k.to_string(), unhex_field(h)?));
+    }
+    Some(out)
+}
+
+fn parse_child(w: &str) -> Option<Option<String>> {
+    if w == "-" {
+        Some(None)
+    } else {
+        Some(Some(unhex_field(w.strip_prefix('c')?)?))
+    }
+}
+
+fn parse_attr_word(w: &str) -> Option<Vec<Attr>> {
+    // reuse the element decoder: attributes of a dummy element
+    match enc::decode(&format!("Ex-a;{w}<"))?.pop()? {
+        Node::Elem { attrs, kids, .. } if kids.is_empty() => Some(attrs),
+        _ => None,
+    }
+}
+
+fn parse_doc_item(w: &str) -> Option<DocItem> {
+    let (k, rest) = w.split_at(1);
+    Some(match k {
+        "T" => DocItem::Text(unhex_field(rest)?),
+        "F" => {
+            let (a, b) = rest.split_once(',')?;
+            DocItem::Fmt(unhex_field(a)?, unhex_field(b)?)
+        }
+        "m" => DocItem::Meta(parse_meta(w)?),
+        "l" => DocItem::Link(parse_kvs(LINK_KEYS, rest)?),
+        "y" => {
+            let (kv, ch) = rest.split_once('|')?;
+            DocItem::Style(parse_kvs(STYLE_KEYS, kv)?, parse_child(ch)?)
+        }
+        "j" => {
+            let (kv, ch) = rest.split_once('|')?;
+            DocItem::Script(parse_kvs(SCRIPT_KEYS, kv)?, parse_child(ch)?)
+        }
+        "k" => {
+            let (h, i) = rest.split_once(',')?;
+            let id = if i == "-" { None } else { Some(unhex_field(i.strip_prefix('i')?)?) };
+            DocItem::Stylesheet(unhex_field(h)?, id)
+        }
+        "H" => DocItem::Html(parse_attr_word(rest)?),
+        "B" => DocItem::Body(parse_attr_word(rest)?),
+        _ => return None,
+    })
+}
+
+fn oco(kv: &[(String, String)], k: &str) -> Option<Oco<'static, str>> {
+    kv.iter().find(|x| x.0 == k).map(|x| Oco::from(x.1.clone()))
+}
+
+fn children_of(s: &Option<String>) -> Option<Children> {
+    s.clone().map(|s| Box::new(move || s.into_any()) as Children)
+}
+
+const DOC_SHELL: &str = "<!DOCTYPE html><html><head><!--HEAD--></head><body></body></html>";
+
+/// every component registers into the ServerMetaContext while the app renders; the integration
+/// then calls `inject_meta_context` on the HTML stream whose first chunk holds the shell
+fn render_doc(items: &[DocItem]) -> Option<String> {
+    let owner = Owner::new();
+    owner.with(|| {
+        let (ctx, output) = leptos_meta::ServerMetaContext::new();
+        provide_context(ctx);
+        for it in items {
+            let html = match it.clone() {
+                DocItem::Text(t) => {
+                    leptos_meta::Title(leptos_meta::TitleProps::builder().text(t).build()).into_view().to_html()
+                }
+                DocItem::Fmt(a, b) => leptos_meta::Title(
+                    leptos_meta::TitleProps::builder().formatter(move |t: String| format!("{a}{t}{b}")).build(),
+                )
+                .into_view()
+                .to_html(),
+                DocItem::Meta(m) => {
+                    let (a, b) = (m.a.clone(), m.b.clone());
+                    let props = match m.kind {
+                        'n' => leptos_meta::MetaProps::builder().name(a).content(b).build(),
+                        'p' => leptos_meta::MetaProps::builder().property(a).content(b).build(),
+                        'c' => leptos_meta::MetaProps::builder().charset(a).build(),
+                        'h' => leptos_meta::MetaProps::builder().http_equiv(a).content(b).build(),
+                        _ => leptos_meta::MetaProps::builder().itemprop(a).content(b).build(),
+                    };
+                    leptos_meta::Meta(props).into_view().to_html()
+                }
+                DocItem::Link(kv) => leptos_meta::Link(leptos_meta::LinkProps {
+                    id: oco(&kv, "id"),
+                    as_: oco(&kv, "as"),
+                    crossorigin: oco(&kv, "crossorigin"),
+                    fetchpriority: oco(&kv, "fetchpriority"),
+                    href: oco(&kv, "href"),
+                    hreflang: oco(&kv, "hreflang"),
+                    imagesizes: oco(&kv, "imagesizes"),
+                    imagesrcset: oco(&kv, "imagesrcset"),
+                    integrity: oco(&kv, "integrity"),
+                    media: oco(&kv, "media"),
+                    referrerpolicy: oco(&kv, "referrerpolicy"),
+                    rel: oco(&kv, "rel"),
+                    sizes: oco(&kv, "sizes"),
+                    title: oco(&kv, "title"),
+                    type_: oco(&kv, "type"),
+                    blocking: oco(&kv, "blocking"),
+                })
+                .into_view()
+                .to_html(),
+                DocItem::Style(kv, ch) => leptos_meta::Style(leptos_meta::StyleProps {
+                    id: oco(&kv, "id"),
+                    media: oco(&kv, "media"),
+                    nonce: oco(&kv, "nonce"),
+                    title: oco(&kv, "title"),
+                    blocking: oco(&kv, "blocking"),
+                    children: children_of(&ch),
+                })
+                .into_view()
+                .to_html(),
+                DocItem::Script(kv, ch) => leptos_meta::Script(leptos_meta::ScriptProps {
+                    id: oco(&kv, "id"),
+                    async_: oco(&kv, "async"),
+                    crossorigin: oco(&kv, "crossorigin"),
+                    defer: oco(&kv, "defer"),
+                    fetchpriority: oco(&kv, "fetchpriority"),
+                    integrity: oco(&kv, "integrity"),
+                    nomodule: oco(&kv, "nomodule"),
+                    nonce: oco(&kv, "nonce"),
+                    referrerpolicy: oco(&kv, "referrerpolicy"),
+                    src: oco(&kv, "src"),
+                    type_: oco(&kv, "type"),
+                    blocking: oco(&kv, "blocking"),
+                    children: children_of(&ch),
+                })
+                .into_view()
+                .to_html(),
+                DocItem::Stylesheet(href, id) => {
+                    leptos_meta::Stylesheet(leptos_meta::StylesheetProps { href, id }).into_view().to_html()
+                }
+                DocItem::Html(attrs) => {
+                    let attrs: Vec<AnyAttribute> = attrs.iter().map(build_attr).collect::<Option<_>>()?;
+                    leptos_meta::Html().into_view().add_any_attr(attrs).to_html()
+                }
+                DocItem::Body(attrs) => {
+                    let attrs: Vec<AnyAttribute> = attrs.iter().map(build_attr).collect::<Option<_>>()?;
+                    leptos_meta::Body().into_view().add_any_attr(attrs).to_html()
+                }
+            };
+            // none of these components renders anything in place
+            if !html.is_empty() {
+                return None;
+            }
+        }
+        let stream = futures::stream::iter(vec![DOC_SHELL.to_string()]);
+        Some(futures::executor::block_on(async move {
+            output.inject_meta_context(stream).await.collect::<Vec<String>>().await.concat()
+        }))
+    })
+}
+
+fn kv_node(tag: &str, kv: &[(String, String)], child: &Option<String>) -> Node {
+    Node::Elem {
+        tag: tag.into(),
+        attrs: kv.iter().map(|(k, v)| Attr::Plain(k.clone(), v.clone(), Ty::string())).collect(),
+        kids: child.iter().map(|s| Node::text(s)).collect(),
+    }
+}
+
+/// the oracle for a document: split the real output at the shell's own tags, parse each inserted
+/// piece on its own (an attribute string after a dummy tag name, the head insertion as a fragment)
+fn doc_verdict(out: &str, items: &[DocItem]) -> String {
+    let mut texts = vec![];
+    let mut fmt: Option<(String, String)> = None;
+    let mut tags: Vec<Node> = vec![];
+    let (mut ha, mut ba): (Vec<Attr>, Vec<Attr>) = (vec![], vec![]);
+    for it in items {
+        match it {
+            DocItem::Text(t) => texts.push(t.clone()),
+            DocItem::Fmt(a, b) => fmt = Some((a.clone(), b.clone())),
+            DocItem::Meta(m) => tags.push(meta_node(m)),
+            DocItem::Link(kv) => tags.push(kv_node("link", kv, &None)),
+            DocItem::Style(kv, ch) => tags.push(kv_node("style", kv, ch)),
+            DocItem::Script(kv, ch) => tags.push(kv_node("script", kv, ch)),
+            DocItem::Stylesheet(href, id) => {
+                let mut kv = vec![];
+                if let Some(i) = id {
+                    kv.push(("id".to_string(), i.clone()));
+                }
+                kv.push(("rel".into(), "stylesheet".into()));
+                kv.push(("href".into(), href.clone()));
+                tags.push(kv_node("link", &kv, &None));
+            }
+            DocItem::Html(a) => ha.extend(a.iter().cloned()),
+            DocItem::Body(a) => ba.extend(a.iter().cloned()),
+        }
+    }
+    // the document title: the innermost text through the innermost formatter
+    let title = texts.last().map(|t| match &fmt {
+        Some((a, b)) => format!("{a}{t}{b}"),
+        None => t.clone(),
+    });
+    let mut want_head = vec![];
+    if let Some(t) = &title {
+        let kids = if t.is_empty() { vec![] } else { vec![Tree::Text(t.clone())] };
+        want_head.push(Tree::Elem { tag: "title".into(), attrs: vec![], kids });
+    }
+    want_head.push(Tree::Comment("HEAD".into()));
+    want_head.extend(enc::expected(&tags));
+    let Some(rest) = out.strip_prefix("<!DOCTYPE html><html") else { return "fail shell-lost".into() };
+    let Some(rest) = rest.strip_suffix("></body></html>") else { return "fail shell-lost".into() };
+    let Some(cut) = rest.rfind("</head><body") else { return "fail shell-lost".into() };
+    let (before, z) = (&rest[..cut], &rest[cut + "</head><body".len()..]);
+    let Some(cut) = before.find("><head>") else { return "fail shell-lost".into() };
+    let (x, y) = (&before[..cut], &before[cut + "><head>".len()..]);
+    let probe = |attrs_html: &str, want: &[Attr]| -> bool {
+        html::parse(&format!("<x-a{attrs_html}></x-a>"))
+            == Some(vec![Tree::Elem { tag: "x-a".into(), attrs: enc::expected_attrs(want), kids: vec![] }])
+    };
+    if !probe(x, &ha) {
+        return "fail html-attrs".into();
+    }
+    if !probe(z, &ba) {
+        return "fail body-attrs".into();
+    }
+    verdict(y, &want_head)
+}
+
 fn verdict(html_out: &str, want: &[Tree]) -> String {
     match html::parse(html_out) {
         Some(got) if got == want => "ok".into(),
@@ -609,6 +894,21 @@ fn op(line: &str, tags: &std::collections::HashMap<String, String>) -> String {
                     format!("{} ## {}", hex(out.as_bytes()), verdict(&out, &expected_head(&title, &metas)))
                 }
                 Ok(None) => "shell-lost ## fail shell-lost".into(),
+                Err(_) => "panic ## fail panic".into(),
+            }
+        }
+        ["doc", its @ ..] => {
+            let Some(items) = its.iter().map(|w| parse_doc_item(w)).collect::<Option<Vec<_>>>() else {
+                return "bad-op".into();
+            };
+            if items.iter().filter(|i| matches!(i, DocItem::Html(_))).count() > 1
+                || items.iter().filter(|i| matches!(i, DocItem::Body(_))).count() > 1
+            {
+                return "bad-op".into();
+            }
+            match catch_unwind(AssertUnwindSafe(|| render_doc(&items))) {
+                Ok(Some(out)) => format!("{} ## {}", hex(out.as_bytes()), doc_verdict(&out, &items)),
+                Ok(None) => "bad-op".into(),
                 Err(_) => "panic ## fail panic".into(),
             }
         }
@@ -848,6 +1148,117 @@ fn gen_cont(r: &mut Rng, c: &mut Ctx, depth: usize, anc: &mut Vec<&'static str>,
     Node::Cont { kind, ity, kids }
 }
 
+/// serialized island props: a JSON object around arbitrary strings, or any string at all
+fn gen_props(r: &mut Rng, c: &mut Ctx) -> String {
+    fn json_str(s: &str) -> String {
+        let mut o = String::from("\"");
+        for ch in s.chars() {
+            match ch {
+                '"' => o.push_str("\\\""),
+                '\\' => o.push_str("\\\\"),
+                '\n' => o.push_str("\\n"),
+                '\t' => o.push_str("\\t"),
+                '\r' => o.push_str("\\r"),
+                ch if (ch as u32) < 0x20 => o.push_str(&format!("\\u{:04x}", ch as u32)),
+                ch => o.push(ch),
+            }
+        }
+        o.push('"');
+        o
+    }
+    match r.below(5) {
+        0 => String::new(),
+        1 => gen_str(r, c),
+        _ => {
+            let n = r.range(1, 3);
+            let fields: Vec<String> =
+                (0..n).map(|i| format!("{}:{}", json_str(&format!("f{i}")), json_str(&gen_str(r, c)))).collect();
+            format!("{{{}}}", fields.join(","))
+        }
+    }
+}
+
+fn gen_island(r: &mut Rng, c: &mut Ctx, depth: usize, anc: &mut Vec<&'static str>) -> Node {
+    let comp = pk(r, &["Counter", "my_app::Island_1", "C"]).to_string();
+    let props = gen_props(r, c);
+    anc.push("leptos-island");
+    let mut kids = gen_kids(r, c, depth - 1, anc, 3);
+    if r.chance(1, 3) {
+        anc.push("leptos-children");
+        let inner = gen_kids(r, c, depth.saturating_sub(2), anc, 2);
+        anc.pop();
+        kids.push(Node::IslandChildren { kids: inner });
+    }
+    anc.pop();
+    Node::Island { comp, props, kids }
+}
+
+fn gen_kvs(r: &mut Rng, c: &mut Ctx, keys: &[&str], max: usize) -> String {
+    let mut picked: Vec<usize> = (0..r.below(max + 1)).map(|_| r.below(keys.len())).collect();
+    picked.sort();
+    picked.dedup();
+    picked.iter().map(|i| format!("{}={}", keys[*i], enc::hx(&gen_str(r, c)))).collect::<Vec<_>>().join(",")
+}
+
+fn attrs_word(attrs: &[Attr]) -> String {
+    // the attribute part of the element encoding: between `E<tag>;` and the closing `<`
+    let e = enc::encode(&[Node::Elem { tag: "x".into(), attrs: attrs.to_vec(), kids: vec![] }]);
+    e["Ex;".len()..e.len() - 1].to_string()
+}
+
+fn gen_doc(r: &mut Rng, c: &mut Ctx) -> String {
+    let mut items: Vec<String> = vec![];
+    for _ in 0..r.below(3) {
+        let t = if r.chance(1, 3) { pk(r, BENIGN).to_string() } else { gen_str(r, c) };
+        items.push(format!("T{}", enc::hx(&t)));
+    }
+    if r.chance(1, 2) {
+        let (a, b) = match r.below(3) {
+            0 => (String::new(), format!(" | {}", gen_str(r, c))),
+            1 => (gen_str(r, c), String::new()),
+            _ => (gen_str(r, c), gen_str(r, c)),
+        };
+        items.push(format!("F{},{}", enc::hx(&a), enc::hx(&b)));
+    }
+    for _ in 0..r.below(4) {
+        match r.below(6) {
+            0 | 1 => {
+                let k = *r.pick(&['n', 'p', 'c', 'h', 'i']);
+                let a = if r.chance(1, 2) { pk(r, &["description", "og:title", "utf-8", "refresh"]).to_string() } else { gen_str(r, c) };
+                let b = if k == 'c' { String::new() } else { gen_str(r, c) };
+                items.push(format!("m{k},{},{}", enc::hx(&a), enc::hx(&b)));
+            }
+            2 => items.push(format!("l{}", gen_kvs(r, c, LINK_KEYS, 5))),
+            3 | 4 => {
+                let script = r.chance(1, 2);
+                let kv = gen_kvs(r, c, if script { SCRIPT_KEYS } else { STYLE_KEYS }, 3);
+                let child = if c.raw_text {
+                    format!("c{}", enc::hx(&gen_str(r, c)))
+                } else if r.chance(1, 2) {
+                    "-".to_string()
+                } else if r.chance(1, 12) {
+                    // F-C06-5: harmless script/style text that happens to contain `<body`
+                    format!("c{}", enc::hx(pk(r, &["if (a<body.length) f()", "/* <body> */"])))
+                } else {
+                    format!("c{}", enc::hx(pk(r, &["var a=1;", "p{color:red}", "x y", "a<b", "if(a&&b){}", "<html"])))
+                };
+                items.push(format!("{}{kv}|{child}", if script { 'j' } else { 'y' }));
+            }
+            _ => {
+                let id = if r.chance(1, 2) { "-".to_string() } else { format!("i{}", enc::hx(&gen_str(r, c))) };
+                items.push(format!("k{},{id}", enc::hx(&gen_str(r, c))));
+            }
+        }
+    }
+    if r.chance(1, 2) {
+        items.push(format!("H{}", attrs_word(&gen_attrs(r, c, false))));
+    }
+    if r.chance(1, 2) {
+        items.push(format!("B{}", attrs_word(&gen_attrs(r, c, false))));
+    }
+    format!("doc {}", items.join(" ")).trim_end().to_string()
+}
+
 fn gen_kids(r: &mut Rng, c: &mut Ctx, depth: usize, anc: &mut Vec<&'static str>, max: usize) -> Vec<Node> {
     let n = r.below(max + 1);
     let mut out: Vec<Node> = vec![];
@@ -859,6 +1270,8 @@ fn gen_kids(r: &mut Rng, c: &mut Ctx, depth: usize, anc: &mut Vec<&'static str>,
             4 | 5 | 12 => {
                 if r.chance(1, 8) {
                     out.push(Node::Unit)
+                } else if depth > 0 && r.chance(1, 5) {
+                    out.push(gen_island(r, c, depth, anc))
                 } else {
                     out.push(gen_cont(r, c, depth, anc, false))
                 }
@@ -1032,6 +1445,39 @@ fn small_scope() -> Vec<String> {
         for (j, v) in views.iter().enumerate() {
             out.push(format!("case ss{i}-{j}\nview {}", enc::encode(v)));
         }
+        // islands: the props string as it is, and inside a JSON object
+        let json = format!("{{\"label\":\"{}\"}}", s.replace('\\', "\\\\").replace('"', "\\\""));
+        let isl = |props: &str, kids: Vec<Node>| Node::Island { comp: "Counter".into(), props: props.into(), kids };
+        let mut k2 = 0;
+        for v in [
+            vec![isl(&s, vec![])],
+            vec![el("div", vec![], vec![t(), isl(&json, vec![t(), Node::IslandChildren { kids: vec![t()] }]), t()])],
+            vec![isl(&json, vec![isl(&s, vec![t()])]), t()],
+        ] {
+            out.push(format!("case ssi{i}-{k2}\nview {}", enc::encode(&v)));
+            k2 += 1;
+        }
+        // every string leptos_meta injects into <html>, <head>, <body>
+        let h = enc::hx(&s);
+        let docs = [
+            format!("doc T{h}"),
+            format!("doc T{} F{h},", enc::hx("Home")),
+            format!("doc T{} F,{h}", enc::hx("Home")),
+            format!("doc T{h} F{h},{h}"),
+            format!("doc F{h},{h} T{} T{h}", enc::hx("outer")),
+            format!("doc l{}", LINK_KEYS.iter().map(|k| format!("{k}={h}")).collect::<Vec<_>>().join(",")),
+            format!("doc j{}|-", SCRIPT_KEYS.iter().map(|k| format!("{k}={h}")).collect::<Vec<_>>().join(",")),
+            format!("doc y{}|-", STYLE_KEYS.iter().map(|k| format!("{k}={h}")).collect::<Vec<_>>().join(",")),
+            format!("doc jsrc={h}|c{h}"),
+            format!("doc yid={h}|c{h}"),
+            format!("doc k{h},i{h} k{h},-"),
+            format!("doc H{}", attrs_word(&[Attr::Plain("lang".into(), s.clone(), Ty::string()), Attr::Class(s.clone(), Ty::string()), Attr::Plain("data-x".into(), s.clone(), ty('?', "str"))])),
+            format!("doc B{}", attrs_word(&[Attr::Plain("id".into(), s.clone(), ty('=', "Arc")), Attr::Style(s.clone(), Ty::string()), Attr::StyleKV("color".into(), s.clone(), Ty::string()), Attr::ClassToggle(s.clone(), true, false)])),
+            format!("doc T{h} mn,{h},{h} H{} B{}", attrs_word(&[Attr::Plain("lang".into(), s.clone(), Ty::string())]), attrs_word(&[Attr::Class(s.clone(), Ty::string())])),
+        ];
+        for (k3, d) in docs.iter().enumerate() {
+            out.push(format!("case ssd{i}-{k3}\n{d}"));
+        }
         out.push(format!(
             "case ssh{i}\nhead t{} mn,{},{} mc,{},",
             enc::hx(&s),
@@ -1077,27 +1523,8 @@ fn gen(seed: u64, n: usize, path: &str) -> std::io::Result<()> {
     for i in 0..n {
         let mut c = Ctx { raw_text: r.chance(1, 6), dirty: r.chance(1, 8) };
         writeln!(f, "case {i}")?;
-        if r.chance(1, 8) {
-            // head
-            let title = match r.below(4) {
-                0 => None,
-                1 => Some(pk(&mut r, BENIGN).to_string()),
-                _ => Some(gen_str(&mut r, &mut c)),
-            };
-            let mut line = String::from("head ");
-            match &title {
-                None => line.push('-'),
-                Some(t) => {
-                    line.push('t');
-                    line.push_str(&enc::hx(t));
-                }
-            }
-            for _ in 0..r.below(4) {
-                let k = *r.pick(&['n', 'p', 'c', 'h', 'i']);
-                let a = if r.chance(1, 2) { pk(&mut r, &["description", "og:title", "utf-8", "refresh"]).to_string() } else { gen_str(&mut r, &mut c) };
-                let b = if k == 'c' { String::new() } else { gen_str(&mut r, &mut c) };
-                line.push_str(&format!(" m{k},{},{}", enc::hx(&a), enc::hx(&b)));
-            }
+        if r.chance(1, 6) {
+            let line = gen_doc(&mut r, &mut c);
             writeln!(f, "{line}")?;
         } else {
             let mut anc: Vec<&'static str> = vec![];
@@ -1186,6 +1613,20 @@ fn node_tags(nodes: &[Node], depth: usize, in_raw: bool, t: &mut Tags) {
                 node_tags(kids, depth, in_raw, t);
                 prev_text = false;
             }
+            Node::Island { props, kids, .. } => {
+                t.insert("island".into());
+                if !props.is_empty() {
+                    t.insert("island-props".into());
+                }
+                str_tags(props, t);
+                node_tags(kids, depth + 1, in_raw, t);
+                prev_text = false;
+            }
+            Node::IslandChildren { kids } => {
+                t.insert("island-children".into());
+                node_tags(kids, depth + 1, in_raw, t);
+                prev_text = false;
+            }
             Node::Elem { tag, attrs, kids } => {
                 prev_text = false;
                 t.insert(format!("depth{}", depth + 1));
@@ -1240,6 +1681,50 @@ fn tags_of_op(w: &[&str]) -> String {
         ["view", e] => {
             if let Some(nodes) = enc::decode(e) {
                 node_tags(&nodes, 0, false, &mut t);
+            }
+        }
+        ["doc", its @ ..] => {
+            t.insert("doc".into());
+            for w in its.iter() {
+                if let Some(it) = parse_doc_item(w) {
+                    match it {
+                        DocItem::Text(s) => {
+                            t.insert("doc-title".into());
+                            str_tags(&s, &mut t);
+                        }
+                        DocItem::Fmt(a, b) => {
+                            t.insert("doc-formatter".into());
+                            str_tags(&a, &mut t);
+                            str_tags(&b, &mut t);
+                        }
+                        DocItem::Meta(m) => {
+                            t.insert("meta".into());
+                            str_tags(&m.a, &mut t);
+                            str_tags(&m.b, &mut t);
+                        }
+                        DocItem::Link(kv) => {
+                            t.insert("doc-link".into());
+                            kv.iter().for_each(|x| str_tags(&x.1, &mut t));
+                        }
+                        DocItem::Style(kv, ch) | DocItem::Script(kv, ch) => {
+                            t.insert("doc-style-script".into());
+                            kv.iter().for_each(|x| str_tags(&x.1, &mut t));
+                            if let Some(ch) = ch {
+                                t.insert("doc-raw-child".into());
+                                str_tags(&ch, &mut t);
+                            }
+                        }
+                        DocItem::Stylesheet(h, i) => {
+                            t.insert("doc-stylesheet".into());
+                            str_tags(&h, &mut t);
+                            i.iter().for_each(|x| str_tags(x, &mut t));
+                        }
+                        DocItem::Html(a) | DocItem::Body(a) => {
+                            t.insert("doc-html-body-attrs".into());
+                            node_tags(&[Node::Elem { tag: "x-a".into(), attrs: a, kids: vec![] }], 0, false, &mut t);
+                        }
+                    }
+                }
             }
         }
         ["head", title, ms @ ..] => {
